@@ -142,6 +142,19 @@ def formula(fn, test, use, pm, depth=0):
         e2 = e2.value
     if depth < 4 and (isinstance(e2, ast.BoolOp) or (isinstance(e2, ast.UnaryOp) and isinstance(e2.op, ast.Not))):
         return formula(fn, e2, use, pm, depth + 1)       # the expansion of a flag variable exposed its structure
+    if isinstance(e2, ast.Compare) and len(e2.ops) == 1 and depth < 6:
+        # a conditional expression as an operand: X op (A if C else B)  ==  (C and X op A) or (not C and X op B)
+        for side in ('left', 'right'):
+            o = e2.left if side == 'left' else e2.comparators[0]
+            if isinstance(o, ast.IfExp):
+                def with_(v):
+                    return ast.Compare(left=v if side == 'left' else e2.left, ops=e2.ops, comparators=[e2.comparators[0] if side == 'left' else v])
+                c = formula(fn, o.test, use, pm, depth + 1)
+                return disj([conj([c, formula(fn, with_(o.body), use, pm, depth + 1)]), conj([neg(c), formula(fn, with_(o.orelse), use, pm, depth + 1)])])
+        l_, r_ = e2.left, e2.comparators[0]
+        if isinstance(e2.ops[0], (ast.Is, ast.IsNot)) and isinstance(l_, ast.Constant) and isinstance(r_, ast.Constant) and (l_.value is None or r_.value is None):
+            same = l_.value is None and r_.value is None
+            return ('const', same == isinstance(e2.ops[0], ast.Is))
     if isinstance(e2, ast.Compare) and len(e2.ops) == 1 and type(e2.ops[0]) in INV:
         pos = ast.Compare(left=e2.left, ops=[INV[type(e2.ops[0])]()], comparators=e2.comparators)
         return neg(atom(cnorm(sem.symx(pos))))
@@ -244,6 +257,7 @@ def value_cases(fn, e, use, pm, depth=0):
         return out
     if isinstance(e, ast.Name):
         ds = [d for d in reaching_definitions(fn.node, e.id, use, pm) if d[0] is not use]
+        has_param = any(d[2] == 'param' for d in ds) and len(ds) > 1
         ds = [d for d in ds if d[2] != 'param' or len(ds) == 1]
         if ds and all(how in ('assign', 'aug') for _, _, how in ds) and all(isinstance(st, (ast.Assign, ast.AugAssign, ast.AnnAssign)) for st, _, _ in ds):
             ds = sorted(ds, key=lambda d: position(d[0]))
@@ -251,6 +265,11 @@ def value_cases(fn, e, use, pm, depth=0):
             if len(before) != len(ds):
                 return [(TRUE, e, use)]            # loop-carried definitions: not analysed
             out = []
+            if has_param:
+                # the caller's value, on the paths on which none of the (conditional) re-definitions runs
+                eff0 = conj([neg(context(fn, d[0], pm)) for d in ds])
+                if satisfiable(eff0):
+                    out.append((eff0, e, fn.node))
             for i, (st, v, how) in enumerate(ds):
                 c = context(fn, st, pm)
                 # overridden by later definitions on the paths where those execute
